@@ -258,8 +258,11 @@ class CFG:
             fin_cache[key] = entry
             # inside finally: exceptions go to the *outer* raise; return/break/continue to the outer ones
             outs = self._block(final, entry, "n", ctx)
-            for e, lab in outs:
-                self._edge(e, target, "exc" if kind == "raise" else "ret" if kind == "return" else lab)
+            if outs:
+                tail = self._new("join", s, f"finally-end[{kind}]")
+                for e, lab in outs:
+                    self._edge(e, tail, lab)
+                self._edge(tail, target, "exc" if kind == "raise" else "ret" if kind == "return" else "n")
             return entry
 
         outer = dict(ctx)
